@@ -50,7 +50,7 @@ func checkC10(p *Prog, r *Report) {
 	dryFalse := func(in ssa.Instruction) bool { return HasFact(in, false, isFieldLoadPred(dry)) }
 
 	// ---- C10/DRYGUARD ----
-	r.Rule("C10/DRYGUARD", "every destination-mutating call in package receiver (mutating *os.Root methods, renameio, unix.Mk*/Bind, ambient os mutators) is dominated by the false edge of a load of TransferOpts.DryRun, locally or along every call chain from every package entry (lifted summaries; closures evaluated at creation and call sites)", 14)
+	r.Rule("C10/DRYGUARD", "every destination-mutating call in package receiver (mutating *os.Root methods, renameio, unix.Mk*/Bind, ambient os mutators) is dominated by the false edge of a load of TransferOpts.DryRun, locally or along every call chain from every package entry (lifted summaries; closures evaluated at creation and call sites)", 12)
 	spec := GuardSpec{InScope: scope, IsSink: mutatorLabel, Guarded: dryFalse}
 	sinks, needs := g.Lift(spec, recvFuncs)
 	entries := entriesOf(g, recvFuncs, scope)
